@@ -73,6 +73,16 @@ def gen(rng, tier):
             case["hist"] = [[q1], ["heur", "10"], [q2], ["heur", "10"]] + [[x] for x in QUERIES[:7]]
             yield case
             continue
+        if EMPTY_GRID_STREAM and k % 40 == 14:
+            # arc-based object WITHOUT time points: the heuristic raises (IndexError) after it may already have added an entry arc;
+            # time points are supplied afterwards and the object is used further
+            spec = VU.gen_vrptw(rng, nmax=3, dense=rng.choice([0.0, 0.5]))
+            if (k // 40) % 2 == 0:
+                spec["arcs"] = [a for a in spec["arcs"] if "D" not in (a[0], a[1])]     # no depot arcs: estimate_max_vehicles() = 0
+            case = dict(form="arc", spec=spec, grid=[], seed=1, mutators=True,
+                        hist=[["n"], ["heur", "100"], ["tp", ["0", "1", "2"]], ["n"], ["obj"], ["heur", "100"], ["n"]])
+            yield case
+            continue
         if k % 10 == 2:
             # mutator stream: the problem data are changed through the object's own API AFTER queries were answered (new time grid,
             # other fleet size / sequence length, another arc, another node); later answers must be those of the changed problem
@@ -142,6 +152,7 @@ from .props_common import tuple_box, query, full_state  # noqa: E402
 
 MUTATORS = ("tp", "setV", "setL", "addarc", "addnode")
 FLAG_MODEL_HAS_MUTATORS = True
+EMPTY_GRID_STREAM = True
 
 
 def apply_mutator(o, op):
